@@ -421,6 +421,11 @@ mut("c18_revert_create_many_entry_after_check", "C18", "thread.c",
             /* TODO: Release threads that have been already created. */
             ABTI_CHECK_ERROR(abt_errno);
 """, "reverts fix ad9f300: the entry of a ULT that could not be created is filled from an unset local (shows in the lazy-stack variant V3: thorough tier)")
+mut("c09_future_compartments_uint16", "C09", "include/abti.h",
+    """    size_t num_compartments;
+    void **array;""", """    uint16_t num_compartments;
+    void **array;""", "the number of compartments of a future is kept in 16 bits (shows with >= 65536 compartments: rare deep runs, thorough tier)")
+CHECK_ARGS["c09_future_compartments_uint16"] = ["--tier", "thorough", "--variants", "V0", "--budget", "120"]
 CHECK_ARGS["c18_revert_create_many_entry_after_check"] = ["--tier", "thorough", "--variants", "V3", "--budget", "200"]
 
 
